@@ -331,7 +331,44 @@ func (o Obs) String() string {
 // Real wraps a DialogueRunner.
 type Real struct {
 	DR *ysgo.DialogueRunner
+	// Keep makes the wrapper hold on to every element Next returned (a host that keeps a transcript) together
+	// with a description taken at the time; Recheck compares them later.
+	Keep bool
+	kept []keptElement
 }
+
+type keptElement struct {
+	el   *ysgo.DialogueElement
+	then string
+}
+
+func describeElement(el *ysgo.DialogueElement) string {
+	var b strings.Builder
+	fmt.Fprintf(&b, "node=%q", el.Node)
+	if el.Line != nil {
+		fmt.Fprintf(&b, " line=%q tags=%q attrs=%v", el.Line.Text, el.Line.Tags, el.Line.Attributes)
+	}
+	for i, op := range el.Options {
+		fmt.Fprintf(&b, " option[%d] disabled=%v", i, op.Disabled)
+		if op.Line != nil {
+			fmt.Fprintf(&b, " text=%q tags=%q attrs=%v", op.Line.Text, op.Line.Tags, op.Line.Attributes)
+		}
+	}
+	return b.String()
+}
+
+// Recheck compares every kept element with what it was when it was returned. "" when nothing changed.
+func (r *Real) Recheck() string {
+	for i, k := range r.kept {
+		if now := describeElement(k.el); now != k.then {
+			return fmt.Sprintf("element %d returned by Next was {%s} when it was returned and is {%s} now", i, k.then, now)
+		}
+	}
+	return ""
+}
+
+// KeptCount is the number of elements held.
+func (r *Real) KeptCount() int { return len(r.kept) }
 
 // Create calls NewDialogueRunner under a panic guard.
 func Create(st variable.Storer, seed string, scripts []string) (r *Real, err error, panicked string) {
@@ -409,6 +446,9 @@ func (r *Real) Once(choice int) (o Obs) {
 		}
 	}()
 	el, err := r.DR.Next(choice)
+	if r.Keep && el != nil && err == nil && len(r.kept) < 400 {
+		r.kept = append(r.kept, keptElement{el, describeElement(el)})
+	}
 	switch {
 	case err != nil && errors.Is(err, ysgo.ErrWaitingForCommandCompletion):
 		return Obs{Kind: KWaiting, Err: err}
